@@ -351,7 +351,7 @@ theorem snd_all : ∀ fuel : Nat, (∀ tag, Snd (AnyQ tag) (unmarshalAny fuel ta
 
 theorem snd_readHead (fmt : Format) :
     Snd (fun (r : Byte × Bytes) enc => ∃ nm : Bytes, nm.length < 32768 ∧ r.2 = docName fmt nm ∧
-      (r.1 = 0#8 ∨ enc = (match fmt with | .file => r.1 :: encString nm | .network => [r.1])))
+      (r.1 = 0#8 ∨ enc = (match fmt with | .file => r.1 :: encString nm | .network => [r.1])) ∧ (r.1 = 0#8 → enc = [0#8]))
     (readHead (isNet fmt)) := by
   cases fmt with
   | file =>
@@ -359,15 +359,15 @@ theorem snd_readHead (fmt : Format) :
     refine snd_mono ?_ snd_readTag
     rintro ⟨t, name⟩ enc h
     rcases h with ⟨h0, hn, rfl⟩ | ⟨h0, _, _, rfl, hl⟩
-    · exact ⟨[], by simp, by simp only at hn; simp [docName, hn], Or.inl h0⟩
-    · exact ⟨name, hl, rfl, Or.inr rfl⟩
+    · exact ⟨[], by simp, by simp only at hn; simp [docName, hn], Or.inl h0, fun _ => rfl⟩
+    · exact ⟨name, hl, rfl, Or.inr rfl, fun e => absurd e h0⟩
   | network =>
     simp only [isNet, readHead, if_true]
     refine snd_mono ?_ (snd_bind snd_readByte (fun t => snd_pure (t, ([] : Bytes))))
     rintro ⟨t, name⟩ enc ⟨b, e1, e2, rfl, rfl, h, rfl⟩
     simp only [Prod.mk.injEq] at h
     obtain ⟨rfl, rfl⟩ := h
-    exact ⟨[], by simp, rfl, Or.inr (by simp)⟩
+    exact ⟨[], by simp, rfl, Or.inr (by simp), fun e => by simp at e; simp [e]⟩
 
 /-- **Soundness of `Decode` into a nil `any`.** Whenever it returns a value, the bytes it consumed are the document
 `nm : t` of a well-formed tree `t` (strings below 2^15 bytes), the value is the Go value of `t`, the name the root
@@ -377,7 +377,7 @@ theorem decodeAnyF_sound (fuel : Nat) (fmt : Format) (s s' : Stream) (v : GoAny)
     ∃ (nm : Bytes) (t : NBT), t.WF ∧ S15 t ∧ nm.length < 32768 ∧ s.flat = encDoc fmt nm t ++ s'.flat ∧
       s'.failing = s.failing ∧ v = goAny t ∧ name = docName fmt nm := by
   have hsnd := snd_bind (snd_readHead fmt) (fun r => snd_bind ((snd_all fuel).1 r.1) (fun v => snd_pure (v, r.2)))
-  obtain ⟨enc, hflat, hfail, ⟨tt, tn⟩, e1, e2, rfl, ⟨nm, hnm, hname, hhdr⟩, x, e3, e4, rfl, ⟨t, htag, hwf, hs15, rfl, rfl⟩, hv, rfl⟩ :=
+  obtain ⟨enc, hflat, hfail, ⟨tt, tn⟩, e1, e2, rfl, ⟨nm, hnm, hname, hhdr, _⟩, x, e3, e4, rfl, ⟨t, htag, hwf, hs15, rfl, rfl⟩, hv, rfl⟩ :=
     hsnd s (v, name) s' h
   simp only [Prod.mk.injEq] at hv
   obtain ⟨rfl, rfl⟩ := hv
@@ -597,7 +597,7 @@ theorem decodeRawF_sound (fuel : Nat) (fmt : Format) (s s' : Stream) (v : Val) (
       rintro v enc ⟨_, data, e1, e2, rfl, ⟨rfl, t, htag, hwf, hs, rfl⟩, rfl, rfl⟩
       exact ⟨t, htag, hwf, hs, by simp, by simp⟩
   have hsnd := snd_bind (snd_readHead fmt) (fun r => snd_bind (hu r.1) (fun v => snd_pure (v, r.2)))
-  obtain ⟨enc, hflat, hfail, ⟨tt, tn⟩, e1, e2, rfl, ⟨nm, hnm, hname, hhdr⟩, x, e3, e4, rfl, ⟨t, htag, hwf, hs15, rfl, rfl⟩, hv, rfl⟩ :=
+  obtain ⟨enc, hflat, hfail, ⟨tt, tn⟩, e1, e2, rfl, ⟨nm, hnm, hname, hhdr, _⟩, x, e3, e4, rfl, ⟨t, htag, hwf, hs15, rfl, rfl⟩, hv, rfl⟩ :=
     hsnd s (v, name) s' h
   simp only [Prod.mk.injEq] at hv
   obtain ⟨rfl, rfl⟩ := hv
